@@ -572,7 +572,33 @@ fn parent_main<H: Harness>(h: H, a: Args, plan: crate::Plan) -> i32 {
             println!("  site={} cases={} : {} [nondeterminism observed inside {} execution(s); {} of 2 replays showed it again]", site, st.count, st.first.what, st.count, k);
             unknown.push((site.clone(), path));
         } else {
-            machinery.push(format!("violation at site {} did not replay deterministically: {:?} vs {:?}", site, r1, r2));
+            // The case did not fail the same way twice. Either the code under test depends on something
+            // outside the recorded choices (hash iteration order, an unseeded generator that the seams
+            // do not cover) or the observation was an artefact. Replay it up to 14 more times in fresh
+            // processes: a violation that shows again is reported with its reproduction rate; one that
+            // never shows again is a machinery failure, not a verdict.
+            let mut shown = [&r1, &r2].iter().filter(|r| has_site(r)).count();
+            let mut total = 2usize;
+            while total < 16 {
+                let r = run_replay_subprocess(&path, plan.case_deadline_ms.max(30_000));
+                total += 1;
+                if has_site(&r) {
+                    shown += 1;
+                }
+                if shown >= 3 {
+                    break;
+                }
+            }
+            if shown >= 1 {
+                println!("VIOLATION property={} replay={}", id, path.display());
+                println!(
+                    "  site={} cases={} : {} [NOT DETERMINISTIC: the same recorded case showed this violation in {} of {} fresh-process replays — the code under test depends on something outside the recorded choices]",
+                    site, st.count, st.first.what, shown, total
+                );
+                unknown.push((site.clone(), path));
+            } else {
+                machinery.push(format!("violation at site {} did not reproduce in {} fresh-process replays: {:?} vs {:?}", site, total, r1, r2));
+            }
         }
     }
 
